@@ -12,7 +12,7 @@ import argparse, json, os, shutil, subprocess, sys, tempfile, time
 ap = argparse.ArgumentParser()
 ap.add_argument('seed'); ap.add_argument('dir'); ap.add_argument('prop')
 ap.add_argument('--checks', default='')
-ap.add_argument('--gotest'); ap.add_argument('--sh'); ap.add_argument('--needs', default='')
+ap.add_argument('--gotest'); ap.add_argument('--sh'); ap.add_argument('--sharg', default='bin', help='bin: pass the built binary as $1; wt: pass the worktree as $1 (GROG env is always set to the binary)'); ap.add_argument('--needs', default='')
 ap.add_argument('--tier', default='quick'); ap.add_argument('--skip-confirm', action='store_true')
 a = ap.parse_args()
 
@@ -30,6 +30,9 @@ def cleanup():
 
 sh(['git', '-C', '/repo', 'worktree', 'add', '-q', '--detach', wt, 'HEAD'])
 patch = os.path.join(a.dir, 'patch.diff')
+prev_meta = {}
+if os.path.exists(os.path.join('/verif/seeded', a.seed, 'meta.json')):
+    prev_meta = json.load(open(os.path.join('/verif/seeded', a.seed, 'meta.json')))
 meta = {'seed': a.seed, 'breaks_property': a.prop, 'needs_to_manifest': a.needs, 'repo_head': sh(['git', '-C', '/repo', 'log', '--format=%h', '-1']).stdout.strip(), 'ran': []}
 try:
     def demo(label):
@@ -42,7 +45,9 @@ try:
         if a.sh:
             binp = os.path.join(wt, 'grog-demo-bin')
             sh(['go', 'build', '-o', binp, '.'], cwd=wt)
-            p = sh(['bash', os.path.join(a.dir, a.sh), binp], cwd=a.dir, check=False, timeout=1800)
+            env['GROG'] = binp
+            p = sh(['bash', os.path.join(a.dir, a.sh), binp if a.sharg == 'bin' else wt], cwd=a.dir, check=False, timeout=1800)
+            env.pop('GROG', None)
             os.remove(binp)
             return p.returncode, (p.stdout + p.stderr)[-600:]
         return None, 'no demonstration given'
@@ -78,6 +83,16 @@ try:
         if p.returncode == 2:
             results[chk]['broken'] = [l for l in p.stdout.splitlines() if 'BROKEN' in l][:3]
         print(chk, results[chk])
+    if a.skip_confirm and prev_meta:
+        for k in ('ran', 'existing_tests_pass', 'demonstration_confirmed', 'needs_to_manifest'):
+            if k in prev_meta and (k != 'needs_to_manifest' or not a.needs):
+                meta[k] = prev_meta[k]
+        merged = dict(prev_meta.get('checks', {}))
+        for c_, r_ in results.items():
+            if c_ in merged and merged[c_].get('caught') is False and r_['caught']:
+                r_['note'] = 'missed before the check was strengthened; caught now'
+            merged[c_] = r_
+        results = merged
     meta['checks'] = results
     meta['caught_by'] = [c for c, r in results.items() if r['caught']]
 finally:
